@@ -51,6 +51,21 @@ def drive(ctx):
             work.append(("valid", "P%s%s%sW" % (v, rnd.choice(".,"), f)))
         for (des, tpart) in (("Y", False), ("M", False), ("D", False), ("H", True), ("M", True), ("S", True)):
             work.append(("valid", "P%s%s%s" % ("T" if tpart else "", v, des)))
+    # random fraction strings of 1..9 digits on every admissible unit (a conversion through binary floating point
+    # is wrong for about one fraction in a hundred only)
+    rf = []
+    for k in range(700 if q else 20000):
+        nd = 1 + k % 9
+        f = "".join(rnd.choice("0123456789") for _ in range(nd))
+        des, tp = (("S", True), ("S", True), ("M", True), ("H", True), ("D", False), ("W", False))[k % 6]
+        head = ("P", "P1Y2M3D", "P3D")[k % 3] if tp else ("P", "P1Y", "P2M")[k % 3]
+        if des == "W":
+            head = "P"
+        rf.append(("valid", "%s%s%s%s%s%s" % (head, "T" if tp else "", rnd.choice(("0", "1", "6", "59", "100")), ".,"[k % 2], f, des)))
+    for k in range(2000 if q else 40000):          # plain microsecond fractions of seconds: 4..6 digits
+        f = "".join(rnd.choice("0123456789") for _ in range(4 + k % 3))
+        rf.append(("valid", "%sT%s%s%sS" % (("P", "P1Y2M3D")[k % 2], rnd.choice(("0", "1", "6", "59")), ".,"[k % 2], f)))
+    rf = ctx.mine(rf)
     # the property's ill-formed classes
     for _ in range(20 if q else 200):
         a, b = rnd.sample(range(3), 2)
@@ -71,12 +86,13 @@ def drive(ctx):
     work = ctx.mine(sorted(set(work)))
     if q:
         work = pick(rnd, work, 900)
-    for (cls, text) in work:
+    for (cls, text) in work + rf:
         ctx.emit("dur_parse", {"text": cps(text), "cls": cls})
     # intervals
     starts = ["2007-03-01T13:00:00Z", "2008-05-11T15:30:00+02:00", "2024-01-31T00:00:00", "2023-12-31T23:59:59.999999Z",
               "2020-02-29T12:00:00-05:30"]
-    durs = ["P1Y2M10DT2H30M", "P1M", "PT36H", "P2W", "P1DT1S", "PT0.5S", "P11M30D", "PT1.000001S"]
+    durs = ["P1Y2M10DT2H30M", "P1M", "PT36H", "P2W", "P1DT1S", "PT0.5S", "P11M30D", "PT1.000001S", "PT0S", "P0D", "P0W", "PT0H0M0S",
+            "P0Y0M0DT0H0M0S", "PT0.0000001S"]
     ivs = []
     for s1 in starts:
         for s2 in starts:
@@ -85,5 +101,5 @@ def drive(ctx):
             ivs.append(("start/duration", s1, d))
             ivs.append(("duration/end", d, s1))
     ivs = ctx.mine(ivs)
-    for (kind, t1, t2) in (pick(rnd, ivs, 40) if q else ivs):
+    for (kind, t1, t2) in (pick(rnd, ivs, 60) if q else ivs):
         ctx.emit("iv_parse", {"kind": kind, "t1": cps(t1), "t2": cps(t2)})
